@@ -113,7 +113,7 @@ pub enum Route {
     Other(usize),
 }
 
-const OTHER_ROUTES: [(&str, bool /*certainly unknown (must refuse)*/); 12] = [
+const OTHER_ROUTES: [(&str, bool /*certainly unknown (must refuse)*/); 16] = [
     ("/v1/client/snapshot/", false),
     ("//v1/client/snapshot", false),
     ("/v1//client/get-child-version/{id}", false),
@@ -126,6 +126,11 @@ const OTHER_ROUTES: [(&str, bool /*certainly unknown (must refuse)*/); 12] = [
     ("/v1/client/unknown", true),
     ("/v1/client/add-snapshot/{id}/", false),
     ("/index.html", true),
+    // the collection paths above the protocol's routes (every method, DELETE and PUT included)
+    ("/v1/client", true),
+    ("/v1/client/", false),
+    ("/v1", true),
+    ("/v1/client/{id}", true),
 ];
 
 const ODD_HEADERS: [(&str, &str); 8] = [
